@@ -299,3 +299,16 @@ Example rx_unrecoverable_stripe_no_parity_error :
   /\ ~ (length (filter (is_bad x_hashf x_bs rx_c 0 (st0 rx_fs3 rx_par3)) (seq 0 2))
         <= length (filter (good_level (rx_vs 0) (map (prow rx_par3 0) (seq 0 2))) (seq 0 2))).
 Proof. vm_compute. repeat split; try reflexivity. intro H. lia. Qed.
+
+(* OPEN finding F-C05-fix-start-range-recovers-file-with-hole: fix over the positions 1, 2 only (`fix -S 1`) on the array rx_c with
+   file 1 (blocks 11 12 13 at positions 0 1 2) missing: the file is created at position 1, blocks 1 and 2 are rebuilt, its LAST
+   block lies in the range, so it is FINISHED and FIXED: reported recovered, recorded time-stamp restored, exit status 0 -- with
+   block 0 never written: the zero block (id 0) instead of the recorded block 11 *)
+Example rx_fix_start_range_hole :
+  let fs := [Some []; Some [mkFF 2 2048 100 0 2 [21; 22]%N]] in
+  let out := check_run x_hashf x_padz x_truncf x_bs 2 false x_newino 999 rx_fix rx_c rx_par_ok fs [] [1; 2] in
+  fs_find (r_fs (out_st out)) 0 1 = Some (mkFF 1 2560 100 0 901 [0; 12; 13]%N)
+  /\ In (K_ST_RECOVERED, [0; 1]%N) (r_tags (out_st out))
+  /\ out_fail out = false /\ r_unrec (out_st out) = 0
+  /\ nth 0 [0; 12; 13]%N 0%N <> vnth (rx_vs 0) 0.
+Proof. vm_compute. repeat split; try reflexivity; [auto 10 | discriminate]. Qed.
